@@ -252,7 +252,7 @@ func (k *checker) handle(c mon.Case, res mon.Result) {
 		k.okDeep[deepShapes[cd.Spec.A%len(deepShapes)].Name] = append(k.okDeep[deepShapes[cd.Spec.A%len(deepShapes)].Name], cd.Spec.B)
 	}
 	// samples: a few real cases per run, spread over the families, preferring ones that got far
-	if wanted := map[string]bool{"soup": true, "mut": true, "deep": true, "script": true, "script-special": true}; wanted[cd.Family] && k.samples[cd.Family] < 1 {
+	if wanted := map[string]bool{"soup": true, "mut": true, "deep": true, "script": true, "runaway": true}; wanted[cd.Family] && k.samples[cd.Family] < 1 {
 		src := sourceOf(&cd)
 		if (cd.Family != "soup" || len(src) >= 25) && (cd.Family != "script" || strings.Contains(cd.InputClass, "cyclic")) && (cd.Family != "deep" || cd.Spec.B >= 1000) {
 			k.samples[cd.Family]++
@@ -616,6 +616,14 @@ func drive(d *mon.Driver, replay string) int {
 	}
 	runChunk(p, mon.PoolOpts{BatchSize: 1, Parallel: 6, BatchTimeout: 5 * time.Minute})
 
+	// runaway recursion / exhaustion shapes (route x site x pending operands x pending defers x entry)
+	rw := planRunaway(d.Rand("runaway"), d.Thorough(), 500)
+	for _, s := range rw {
+		p.add("runaway", s.caseData())
+	}
+	d.Extra("runaway_shapes", map[string]any{"run": len(rw), "routes": rwRoutes, "sites": rwSites, "pending": rwPending, "defers": rwDefers, "entries": rwEntries})
+	runChunk(p, mon.PoolOpts{BatchSize: 25, BatchTimeout: 5 * time.Minute})
+
 	k.confirmAndReport(false)
 
 	d.Extra("script_cases", nScript)
@@ -671,6 +679,9 @@ func (k *checker) confirmAndReport(isReplay bool) {
 		}
 		if s.Data.Family == "deep" && s.Data.Spec != nil {
 			key += fmt.Sprintf("|%s", deepShapes[s.Data.Spec.A%len(deepShapes)].Name)
+		}
+		if s.Data.Runaway != nil {
+			key += "|" + s.Data.Runaway.shape() // every shape is confirmed on its own
 		}
 		g := groups[key]
 		if g == nil {
